@@ -26,7 +26,7 @@ ASSUMPTIONS = [
     "with trailing bytes after an RTU frame the served payload must be the prefix of response_data() (the library's "
     "trim keeps the trailing bytes; sensors address the payload by offset)",
 ]
-MUST = ["aa55_sum_ge_8000", "aa55_sum_ge_10000", "rtu_trailing", "end_to_end_success", "negative_write_echo", "overlapping_tcp_inverters", "same_object_sequences", "consecutive_slow_or_identical_answers", "requests_from_a_new_event_loop", "write_ack_payload_checked", "answer_from_another_comm_address",
+MUST = ["aa55_read_length_independent_of_count", "aa55_sum_ge_8000", "aa55_sum_ge_10000", "rtu_trailing", "end_to_end_success", "negative_write_echo", "overlapping_tcp_inverters", "same_object_sequences", "consecutive_slow_or_identical_answers", "requests_from_a_new_event_loop", "write_ack_payload_checked", "answer_from_another_comm_address",
         "accepted_rtu", "accepted_tcp", "accepted_aa55"]
 EXHAUSTIVE = {"quick": False, "thorough": False}
 CLASSES = ["random", "ff", "00", "7f80", "fe", "aa55"]
@@ -115,6 +115,11 @@ def direct(spec, part):
         for cls in CLASSES:
             d = {"framing": "aa55", "kind": "aa55read", "reg": rnd.randrange(65536), "count": count, "rtype": "019A"}
             check_one(g, part, d, rc.aa55_response("019A", payload_bytes(rnd, 2 * count, cls)), cls)
+            # the AA55 register read does not tie the payload length to the requested count (an ES eco-mode group is read with
+            # count 1 and answered with 8 bytes): every length byte 0..255 is a well-formed answer
+            for plen in {0, 1, 2 * count - 1, 8, rnd.randrange(256), 255}:
+                part.count("aa55_read_length_independent_of_count")
+                check_one(g, part, dict(d, plen=plen), rc.aa55_response("019A", payload_bytes(rnd, plen, cls)), cls)
     for _ in range(20):
         d = {"framing": "aa55", "kind": "aa55write", "reg": rnd.randrange(65536), "value": rnd.randrange(65536), "rtype": "02B9"}
         check_one(g, part, d, rc.aa55_response("02B9", b"\x06"), "ack")
